@@ -3,7 +3,7 @@
    Print Assumptions. Model: Cluster/Remote.v; proofs: Cluster/RemoteProofs.v (proxy, chains),
    Cluster/RemoteNetProofs.v (two-node system). *)
 From Coq Require Import List NArith Bool Sorted.
-From RV Require Import Cluster.Remote Cluster.RemoteProofs Cluster.RemoteNetProofs.
+From RV Require Import Cluster.Remote Cluster.RemoteProofs Cluster.RemoteNetProofs Cluster.RemoteReplyProofs.
 Import ListNotations.
 Local Open Scope N_scope.
 
@@ -75,6 +75,19 @@ Theorem C20_reply_correlation : forall resp nf nb ls p d, let st := run resp (in
   exists pid m, In (pid, m, p) (calls st) /\ m_call m = true /\ resp pid m = Some d
                 /\ forall pid' m', In (pid', m', p) (calls st) -> pid' = pid /\ m' = m.
 Proof. exact net_reply_correlation. Qed.
+
+(* (2') and the reply does come back: if no fault hit the target, the caller is still there, the
+   real actor answers the call, and nothing about this call is on its way any more (the proxy's
+   mailbox, the frames to the target, the target's mailbox, the reply tasks and the backward
+   chain are empty), then the port HAS been resolved — by (2) with exactly that answer *)
+Theorem C20_reply_complete : forall resp nf nb ls pid m port d,
+  let st := run resp (init nf nb) ls in
+  In (pid, m, port) (calls st) -> m_call m = true -> resp pid m = Some d ->
+  lossy st pid = false -> ~ In port (aband st) ->
+  x_mbox (px st pid) = [] -> fmsgs pid (flat (fwd st)) = [] -> t_mbox (tg st pid) = [] ->
+  pool st = [] -> flat (bwd st) = [] ->
+  In (port, d) (res st).
+Proof. exact net_reply_complete. Qed.
 
 (* (3) per target, what the real actor handled is a subsequence of what its remote reference
    accepted: same messages (cast/call, variant, bytes), same order; hence per sender, for every
@@ -159,6 +172,11 @@ Example ex_net :
   = ([mkMsg false 1 [7]; mkMsg true 2 [8]; mkMsg true 2 [6]], [(100, [5; 8])], [(1, 100); (2, 101)],
      true, [9], false, []).
 Proof. vm_compute. reflexivity. Qed.
+Example ex_net_quiescent :
+  let st := run ex_resp (init 1 1) ex_ls in
+  (calls st, lossy st 5, aband st, x_mbox (px st 5), fmsgs 5 (flat (fwd st)), t_mbox (tg st 5), pool st, flat (bwd st))
+  = ([(5, mkMsg true 2 [8], 100); (5, mkMsg true 2 [6], 101)], false, [101], [], [], [], [], []).
+Proof. vm_compute. reflexivity. Qed.
 Example ex_net_exit_close :
   let st := run ex_resp (init 1 1) (ex_ls ++ [LExit 5; LCtl; LCtl; LHopB 0; LHopB 0; LDeliverB; LDeliverB]) in
   let st' := run ex_resp (init 1 1) (ex_ls ++ [LSend 5 (mkMsg false 1 [1]) 0; LClose 1; LSend 5 (mkMsg false 1 [2]) 0]) in
@@ -190,6 +208,7 @@ Print Assumptions C20_reply_finds_open.
 Print Assumptions C20_chain_is_fifo.
 Print Assumptions C20_tags_fresh.
 Print Assumptions C20_reply_correlation.
+Print Assumptions C20_reply_complete.
 Print Assumptions C20_fifo_per_sender.
 Print Assumptions C20_fifo_no_gaps.
 Print Assumptions C20_mirror_lifecycle.
